@@ -101,31 +101,31 @@ def run(ctx):
                         overrides=dict(base, Mode="flat", MaxRules=ctx.pick(2, 3), PathLen=3,
                                        Pats=set(ctx.pick(["p_a", "p_ns", "p_any", "p_adig", "p_anydig"],
                                                          ["p_a", "p_ns", "p_any", "p_adig", "p_anydig", "p_named"]))),
-                        required_actions=["dispatch", "reverse"], timeout=ctx.pick(300, 1500))
+                        required_actions=["dispatch", "reverse"], timeout=ctx.pick(900, 1500))
     # (B) host rules and nested routers
     paths += W.mc_states(ctx, "webstatic", "Routing", "MC_Routing.cfg",
                          overrides={"Mode": "struct", "MaxRules": ctx.pick(1, 2), "Pats": {"p_a", "p_ns", "p_adig"}, "HostPats": {"h_a", "h_any"},
                                     "Hosts": {"a.com", "b.com", "xa.com", "a.com:8080", "A.COM", "a.com.b.com"}, "PathLen": 2,
                                     "PathToks": {"s", "a", "1", "pS"}, "ArgNames": {"a", "1"}},
-                         required_actions=["dispatch", "reverse"], timeout=ctx.pick(300, 1500))
+                         required_actions=["dispatch", "reverse"], timeout=ctx.pick(900, 1500))
     # (C) single rules from the pattern generator
     paths += W.mc_states(ctx, "webstatic", "Routing", "MC_Routing.cfg",
                          overrides=dict(base, Mode="gen", GenLen=ctx.pick(2, 3), PathLen=3,
                                         ArgNames={"a", "1", "slash", "pct", "empty", "sp", "12"},
                                         ElemToks={"s", "a", "dot", "Gns", "Gany", "Gdig", "Nns", "Nany"}),
-                         required_actions=["dispatch", "reverse"], timeout=ctx.pick(300, 1500))
+                         required_actions=["dispatch", "reverse"], timeout=ctx.pick(900, 1500))
     # the full round-trip statement, expected to be refuted at specification level (finding F31r)
-    ctx.mc("webstatic", "Routing", "MC_Routing_RoundTrip.cfg",
-           spec_violation_sig=lambda r, states: {"arg_has_slash": any(47 in a for a in (states[-1][1]["step"]["args"][2] if states else []))})
+    W.mc_states(ctx, "webstatic", "Routing", "MC_Routing_RoundTrip.cfg", timeout=ctx.pick(900, 1500),
+                violation_sig=lambda r, states: {"arg_has_slash": any(47 in a for a in (states[-1][1]["step"]["args"][2] if states else []))})
     ctx.replay(paths, replayer, nontrivial=nt)
     ctx.cov["exhaustive"] = True
-    sims = ctx.sim_paths("webstatic", "Gen_Routing", "Gen_Routing.cfg", num=ctx.pick(60, 400), depth=9)
+    sims = ctx.sim_paths("webstatic", "Gen_Routing", "Gen_Routing.cfg", num=ctx.pick(30, 400), depth=9, timeout=ctx.pick(900, 1500))
     ctx.replay(sims, replayer, label="s2c-sim")
     ctx._phase("mc+s2c", t0)
     t0 = time.time()
     n = ctx.pick(300, 5000)
     traces = framework.pool_map(random_trace, [(i + 1, ctx.seed * 1000003 + i, 25) for i in range(n)])
-    ctx.validate("webstatic", "Trace_Routing", "Trace_Routing.cfg", traces, shards=ctx.pick(2, None), sig_fn=_trace_sig)
+    ctx.validate("webstatic", "Trace_Routing", "Trace_Routing.cfg", traces, shards=ctx.pick(2, None), sig_fn=_trace_sig, timeout=ctx.pick(900, 1500))
     ctx._phase("c2s", t0)
     ctx.cov["rule"] = ("cases: (A) ordered lists of <= 2/3 path rules from a pattern menu x paths '/' + <= 3 tokens over {/, a, 1, ., %41, %2F}; "
                        "(B) lists with host rules and nested routers x 5 Host values; (C) every pattern '/' + <= 2/3 elements x paths; "
